@@ -102,6 +102,21 @@ def make_options(rng, sysd, workdir, res, allow=("plain", "c_full", "c_prefix", 
             kw["build_res"] = [drop]
             sup = [g for g in groups if g["resname"] != drop]
             info["build_res"] = drop
+            if sup and rng.random() < 0.3:
+                # growth of one molecule is told to start at a residue whose coordinates are supplied
+                # preferably in a molecule whose first residue is among those to be rebuilt
+                headless = {g["mol"] for g in groups if g["res"] == 0 and g["resname"] == drop}
+                g0 = rng.choice([g for g in sup if g["mol"] in headless] or sup)
+                if g0["mol"] in headless:
+                    bump(res, "start_at_supplied_residue_first_residue_rebuilt")
+                if rng.random() < 0.5:
+                    kw["start"] = ["%s#%d-%s#%d" % (g0["molname"], g0["mol"], g0["resname"], g0["resid"])]
+                else:
+                    # by molecule name only: every molecule of that name starts there
+                    kw["start"] = ["%s-%s#%d" % (g0["molname"], g0["resname"], g0["resid"])]
+                    bump(res, "start_by_molecule_name")
+                info["start"] = kw["start"]
+                bump(res, "start_at_supplied_residue")
         elif mode == "c_mc":
             # atoms for the first residues (-c) and, in the same run, centres for those and further residues (-mc)
             if len(groups) < 2:
